@@ -274,7 +274,7 @@ def run_case(ctx, case):
 
 
 def run(ctx):
-    n = ctx.n(150, 600)
+    n = ctx.n(150, 2400)
     forced = [('crossnobis', 'none'), ('crossnobis', 'one'), ('crossnobis', 'per_fold'),
               ('poisson_cv', None), ('crossnobis', 'none', 'many_reps_str'),
               ('poisson_cv', None, 'many_reps_str')]
